@@ -645,6 +645,9 @@ func mcRunRdpC14(e *mcEnv) {
 		if ci == 0 {
 			mcRunRdpSweep(e, cf)
 		}
+		if ci == 0 || ci == 1 || ci == 6 || ci == 7 {
+			mcRunRdpDelims(e, cf)
+		}
 		noFilter := cf.hash == "" && cf.hashRx.kind == 0 && len(cf.ips) == 0 && len(cf.ports) == 0 && cf.info == "" && cf.infoRx.kind == 0
 		ipOnly := cf.hash == "" && cf.hashRx.kind == 0 && cf.info == "" && cf.infoRx.kind == 0 && !noFilter
 		reps := e.n / 12
@@ -866,6 +869,30 @@ func mcRunRdpSweep(e *mcEnv, cf *mcRdpCfg) {
 			m.corr = mcRdpCorr(id)
 			m.corr[20+v%16] = b
 			try(m, b == 0, "correlation info reserved byte", v)
+		}
+	}
+}
+
+// the variable parts of a request (cookie hash, custom info, token cookie) with each terminator / delimiter
+// pattern at every position, followed by nothing, by more text, by a negotiation request: the wire
+// definition does not say what such a request means, so only the correspondence with the model is checked
+func mcRunRdpDelims(e *mcEnv, cf *mcRdpCfg) {
+	neg := mcRdpNeg(0, 3)
+	for _, base := range []string{"Cookie: mstshash=user1", "lb-info-1", "Cookie: msts=167772170.15629.0000"} {
+		for p := 0; p <= len(base); p++ {
+			for _, d := range [][]byte{{0x0D, 0x0A}, {0x0D}, {0x0A}, {0}, {'='}, {'.'}} {
+				if !vThorough() && p%2 != 0 && len(d) != 2 {
+					continue
+				}
+				v := mcCat([]byte(base[:p]), d, []byte(base[p:]), []byte("\r\n"))
+				if strings.HasPrefix(base, "Cookie: msts=") {
+					v = mcRdpToken(v)
+				}
+				for _, tail := range [][]byte{nil, neg, {1}} {
+					m := &mcRdp{ver: 3, tc: 0xE0, routing: v, neg: tail}
+					mcRef(e, cf.mt, m.encode(), mcUnknown, "delims", "delimiter inside a variable part", "", "")
+				}
+			}
 		}
 	}
 }
